@@ -2910,6 +2910,8 @@ status_t MessageField :: Unflatten(DataUnflattener & unflat)
    _state = FIELD_STATE_EMPTY;  // semi-paranoia
    SetInlineItemToNull();       // ditto
 
+   if ((_typeCode == B_POINTER_TYPE)||(_typeCode == B_TAG_TYPE)) return B_UNIMPLEMENTED;  // pointers and tags should not be serialized (and their arrays' Unflatten() methods MCRASH)
+
    const uint32 numItemsInBuffer = GetNumItemsInFlattenedBuffer(unflat.GetCurrentReadPointer(), unflat.GetNumBytesAvailable());
    if (numItemsInBuffer == 1) return SingleUnflatten(unflat);
    else
